@@ -12,11 +12,11 @@ for d in sorted(glob.glob('/verif/seeded/*/')):
     q=m.get('quick_checks_reporting_violation')
     part=m.get('quick_checks_reporting_violation_partial',{})
     tq=m.get('thorough_checks_reporting_violation_partial',{})
-    caught=set(q or [])
+    caught={c for c in (q or []) if 'machinery' not in c}
     caught |= {k for k,v in part.items() if v}
     note=''
     if q is not None and part:
-        first=set(q)
+        first={c for c in q if 'machinery' not in c}
         later={k for k,v in part.items() if v}-first
         if later: note=' (%s after strengthening)'%', '.join(sorted(later))
     th={k for k,v in tq.items() if v}-caught
